@@ -252,6 +252,7 @@ func worker(w *runner.W) {
 				}
 				baseline = r
 			}
+			w.SetCase(func() any { return Case{Config: &c} })
 			units := mc.Units(c.Bound, func(e *mc.Explorer) {
 				run(e, &c, false)
 				e.EndExecution()
